@@ -33,6 +33,7 @@ SPECS = {
     'onerr': [F('a', ge=0, on_error='exclude', default=7), F('b', ge=0, on_error='exclude', required=False),
               F('c', ge=0, on_error='preserve', required=False), F('d', ge=0)],
     'defer': [F('a', default=1, defer=True), F('b', factory=seven, defer=True), F('c', default=3)],
+    'depio': [F('x', required=False, deps=['y']), F('y', no_input=True, default=9), F('z', default=0, deps=['x'])],
     'mix': [F('a', alias='A1', ci=True), F('b', alias_from=['b1'], default=0, deps=['a']),
             F('c', no_input=True, default=2), F('d', ge=0, on_error='exclude', required=False)],
 }
@@ -303,7 +304,12 @@ def reference(spec_id, o, items):
     for f in spec:
         if f['name'] in provided:
             for d in f['deps']:
+                dspec = [g for g in spec if g['name'] == d]
                 if d in maybe or f['name'] in maybe:
+                    optional.add('dependency')
+                elif dspec and mode_flag(dspec[0]['no_input'], mode, dspec[0]['mode']):
+                    # a dependency on a field that takes no input: whether supplying its (ignored) key satisfies the
+                    # dependency is not specified
                     optional.add('dependency')
                 elif d not in provided:
                     errors.add('dependency')
